@@ -659,6 +659,9 @@ func init() {
 				mi := graphinv.RunMapInit(c, "./graph/simple", "./graph/multi")
 				mi.Floor("inner_map_installations", 16)
 				res.Merge(mi)
+				ne := graphinv.RunNilEntry(c, "./graph/simple", "./graph/multi")
+				ne.Floor("method_calls_on_map_entries", 8)
+				res.Merge(ne)
 				rl := graphinv.RunRelit(c, "./graph/simple", "./graph/multi")
 				rl.Floor("receiver_rebuilding_literals", 2)
 				res.Merge(rl)
@@ -898,6 +901,8 @@ func dump(argv []string) {
 		res = flagx.RunBandCol(def, core.Pkgs(argv[1:]...))
 	case "stepbound":
 		res = stride.RunStepBound(def, core.Pkgs(argv[1:]...))
+	case "nilentry":
+		res = graphinv.RunNilEntry(def, argv[1:]...)
 	case "workquery":
 		res = flagx.RunWorkQuery(def, core.Pkgs(argv[1:]...))
 	case "betascale":
